@@ -85,25 +85,60 @@ func (ms *Modules) Read(name string) error {
 
 // Parse parses data as YANG source and adds it to ms.  The name should reflect
 // the source of data.
-// Note: If an error is returned, valid modules might still have been added to
-// the Modules cache.
+// A text is taken as a whole or not at all: if an error is returned, none of
+// the modules of the text has been added and nothing of it stays behind in the
+// type dictionary.
 func (ms *Modules) Parse(data, name string) error {
 	ss, err := Parse(data, name)
 	if err != nil {
 		return err
 	}
+	// Build everything first, add afterwards, and take out again whatever
+	// a text that is refused has put into the type dictionary or the maps.
+	known := ms.typeDict.nodes()
+	var built []Node
 	for _, s := range ss {
 		// Only modules and submodules can be added. Anything else is
 		// refused before it is built: building it would leave its
 		// typedefs in the type dictionary with no module around them.
 		if s.Keyword != "module" && s.Keyword != "submodule" {
+			ms.typeDict.keepOnly(known)
 			return fmt.Errorf("%s: not a module or submodule: %s is of type %s", s.Location(), s.Argument, s.Keyword)
 		}
 		n, err := buildASTWithTypeDict(s, ms.typeDict)
 		if err != nil {
+			ms.typeDict.keepOnly(known)
 			return err
 		}
+		built = append(built, n)
+	}
+	type saved struct {
+		m   map[string]*Module
+		key string
+		val *Module
+		had bool
+	}
+	var undo []saved
+	for _, n := range built {
+		if mod, ok := n.(*Module); ok {
+			m := ms.Modules
+			if mod.Kind() == "submodule" {
+				m = ms.SubModules
+			}
+			for _, k := range []string{mod.FullName(), mod.Name} {
+				v, had := m[k]
+				undo = append(undo, saved{m, k, v, had})
+			}
+		}
 		if err := ms.add(n); err != nil {
+			for i := len(undo) - 1; i >= 0; i-- {
+				if u := undo[i]; u.had {
+					u.m[u.key] = u.val
+				} else {
+					delete(u.m, u.key)
+				}
+			}
+			ms.typeDict.keepOnly(known)
 			return err
 		}
 	}
